@@ -11,6 +11,9 @@ std::atomic<uint64_t> cell{1}; std::atomic<uint64_t> freed{0}; uint64_t flag[4];
 #define USE() do { auto v = cell.load(std::memory_order_acquire); if (v == 1) vf_check(freed.load(std::memory_order_relaxed) == 0, 1); } while (0)
 #define READER(a) do { acc[a].lock(); USE(); acc[a].unlock(); } while (0)
 #define READER_NESTED(a) do { acc[a].lock(); acc[a].lock(); acc[a].unlock(); USE(); acc[a].unlock(); } while (0)
+// the object is obtained in the OUTER region and still used inside / after a nested region entered later
+#define READER_NESTED_HOLD(a) do { acc[a].lock(); auto v = cell.load(std::memory_order_acquire); acc[a].lock(); if (v == 1) vf_check(freed.load(std::memory_order_relaxed) == 0, 1); \
+    acc[a].unlock(); if (v == 1) vf_check(freed.load(std::memory_order_relaxed) == 0, 1); acc[a].unlock(); } while (0)
 #define READER_TL() do { e->lock(); USE(); e->unlock(); } while (0)
 #define WRITER() do { cell.store(2, std::memory_order_release); auto t = e->tick(); auto lwm = e->low_water_mark(); if (t <= lwm) freed.store(1, std::memory_order_relaxed); } while (0)
 // progress direction: once every region is closed / accessor released, the mark must not be held back
